@@ -80,6 +80,8 @@ type Env struct {
 	St   Stats
 	base struct{ mem, l0, nl0, seek int }
 
+	KeepTr bool // ReleaseHandles leaves an open transaction alone (Close will discard it)
+
 	batch *leveldb.Batch // one Batch object reused (Reset) by a quarter of the batch writes
 
 	snaps    []*snapH
@@ -1386,7 +1388,7 @@ func (e *Env) ReleaseHandles() error {
 		h.s.Release()
 	}
 	e.snaps = nil
-	if e.Tr != nil {
+	if e.Tr != nil && !e.KeepTr {
 		e.Tr.Discard()
 		e.Tr, e.TrM = nil, nil
 		e.St.TrDiscards++
